@@ -104,7 +104,7 @@ fn run_world_inner(mut wd: World, mut rng: Option<Rng>, trace: Option<Vec<Action
 				wd.apply(&Action::Settle);
 			}
 			if !wd.dead && !wd.strict_offchain && wd.cfg.profile != "onionline" {
-				if wd.cfg.profile == "justice" {
+				if wd.cfg.profile == "justice" && wd.cheat.is_none() {
 					if let Some(a) = sched::gen_cheat(&wd, &mut sched) {
 						wd.apply(&a);
 					}
